@@ -235,6 +235,23 @@ class Opaque:
         return "<opaque %s>" % self.desc
 
 
+class Inf:
+    """float("inf") / float("-inf").  Only comparisons are modelled: every modelled real (A1: concrete rationals and
+    symbolic reals are finite) is strictly between -inf and +inf.  Arithmetic on it is Unsupported."""
+
+    def __init__(self, sign=1):
+        self.sign = 1 if sign > 0 else -1
+
+    def __repr__(self):
+        return "inf" if self.sign > 0 else "-inf"
+
+    def __eq__(self, o):
+        return isinstance(o, Inf) and o.sign == self.sign
+
+    def __hash__(self):
+        return hash(("Inf", self.sign))
+
+
 class SliceVal:
     def __init__(self, lo, hi, step):
         self.lo, self.hi, self.step = lo, hi, step
